@@ -2,7 +2,7 @@
    Only statements, closed by [exact], each followed by Print Assumptions.
    The decoder model is Cbor/Typed.v ([dec], [unmarshal], [dec_raw]); oracles (X.509 parsing, RFC 3339
    parsing) are universally quantified: the theorems hold whatever they answer. *)
-From FDO Require Import Cbor.Typed Cbor.DecFacts.
+From FDO Require Import Cbor.Typed Cbor.DecFacts Gen.Tables Gen.TablesOk.
 
 (* For every target shape, every byte string, every oracle behaviour: decoding with the fuel the runner
    uses neither panics nor runs out of fuel — it returns a value or an error. *)
@@ -52,6 +52,12 @@ Theorem C12_depth_limit : forall O_der O_rfc f t b h r,
   exists e, dec O_der O_rfc (S f) max_depth t b = Err e.
 Proof. exact dec_depth_limit. Qed.
 Print Assumptions C12_depth_limit.
+
+(* The limits the theorems speak about are the ones compiled into the library today (regenerated table). *)
+Theorem C12_limits_are_the_codes :
+  max_len = max_array_decode_length /\ N.of_nat max_depth = max_decode_depth.
+Proof. exact (conj max_len_is_code max_depth_is_code). Qed.
+Print Assumptions C12_limits_are_the_codes.
 
 (* Non-vacuity: the hypotheses are met by concrete inputs; a deep nest is rejected, an honest item decodes. *)
 Example C12_example_ok :
